@@ -19,7 +19,14 @@ pub struct Case {
     /// lexically also object class references)
     #[serde(default)]
     pub names: String,
+    /// definitions of the documented no-output categories (class, object, object set, parameterized template, with
+    /// names sorting before and after every other definition) precede the definitions of module Main
+    #[serde(default)]
+    pub extras: bool,
 }
+
+/// the no-output categories named by the property: they owe neither an item nor a warning, and must not disturb the rest
+pub const EXTRAS: &str = "AA-CLASS ::= CLASS { &id INTEGER UNIQUE, &Type } WITH SYNTAX { &Type IDENTIFIED BY &id }\naa-obj AA-CLASS ::= { INTEGER IDENTIFIED BY 1 }\nAaSet AA-CLASS ::= { aa-obj }\nAaTempl { T } ::= SEQUENCE { x T }\nZZ-CLASS ::= CLASS { &code INTEGER } WITH SYNTAX { CODE &code }\nzz-obj ZZ-CLASS ::= { CODE 2 }\nZzSet ZZ-CLASS ::= { zz-obj }";
 
 fn spell(c: &Case, text: &str) -> String {
     if c.names == "upper" {
@@ -132,15 +139,16 @@ fn sources_as_written(c: &Case) -> Vec<String> {
         }).collect();
         return vec![module("Main", "AUTOMATIC", false, &body.join("\n")), module("Bad", "AUTOMATIC", false, &bad.join("\n"))];
     }
+    let extras = if c.extras { format!("{EXTRAS}\n") } else { String::new() };
     if c.layout == "one" {
         let body: Vec<String> = idx.iter().map(|i| text_of(*i)).collect();
-        vec![module("Main", "AUTOMATIC", false, &body.join("\n"))]
+        vec![module("Main", "AUTOMATIC", false, &format!("{extras}{}", body.join("\n")))]
     } else {
         // definitions 0..=5 live in module Lib, the rest in Main which imports what it uses
         let lib: Vec<String> = idx.iter().filter(|i| **i <= 5).map(|i| text_of(*i)).collect();
         let main: Vec<String> = idx.iter().filter(|i| **i > 5).map(|i| text_of(*i)).collect();
         vec![
-            format!("Main DEFINITIONS AUTOMATIC TAGS ::= BEGIN\nIMPORTS Ty0, Ty1, Ty2, Ty3, Ty4 FROM Lib;\n{}\nEND\n", main.join("\n")),
+            format!("Main DEFINITIONS AUTOMATIC TAGS ::= BEGIN\nIMPORTS Ty0, Ty1, Ty2, Ty3, Ty4 FROM Lib;\n{extras}{}\nEND\n", main.join("\n")),
             module("Lib", "EXPLICIT", false, &lib.join("\n")),
         ]
     }
@@ -202,31 +210,33 @@ impl Prop for C10 {
         "C10"
     }
     fn rule(&self) -> String {
-        "base: 16 definitions of every kind (constrained INTEGER, SEQUENCE, CHOICE, ENUMERATED, SEQUENCE OF, alias, SET, BIT STRING with named bits, hyphenated name; values of INTEGER, referenced INTEGER, string, OID, enumeral, CHOICE, named bits) with a dependency graph, in one module or split over two modules with IMPORTS, in forward and reverse textual order, both backends; faults: every way of replacing k=1 (quick) / k<=2 (thorough) definitions by a parseable-but-unsupported one of each kind {REAL, VideotexString, TIME type assignment, inverted range, reference to an undefined type, MACRO definition; REAL value (decimal and { mantissa, base, exponent } notation), value of an undefined type, ALL value, local-time value, value of an ENUMERATED / SEQUENCE type written in the value assignment; selection type of an undefined CHOICE}. Oracle: every top-level assignment of the faulted input is generated under its mangled name in its own module, or named by a warning, or covered by an anonymous warning (count), or is a class/object/template (a MACRO is none of these and must be warned about); locality: every definition that does not transitively depend on a faulted one has exactly the items of the fault-free compilation. Non-trivial: the faulted input compiled to Ok and was accounted.".into()
+        "base: 16 definitions of every kind (constrained INTEGER, SEQUENCE, CHOICE, ENUMERATED, SEQUENCE OF, alias, SET, BIT STRING with named bits, hyphenated name; values of INTEGER, referenced INTEGER, string, OID, enumeral, CHOICE, named bits) with a dependency graph, in one module or split over two modules with IMPORTS, in forward and reverse textual order, both backends, with and without definitions of the documented no-output categories (class, object, object set, parameterized template; names sorting before and after every other definition) in front; faults: every way of replacing k=1 (quick) / k<=2 (thorough) definitions by a parseable-but-unsupported one of each kind {REAL, VideotexString, TIME type assignment, inverted range, reference to an undefined type, MACRO definition; REAL value (decimal and { mantissa, base, exponent } notation), value of an undefined type, ALL value, local-time value, value of an ENUMERATED / SEQUENCE type written in the value assignment; selection type of an undefined CHOICE}. Oracle: every top-level assignment of the faulted input is generated under its mangled name in its own module, or named by a warning, or covered by an anonymous warning (count), or is a class/object/template (a MACRO is none of these and must be warned about); locality: every definition that does not transitively depend on a faulted one has exactly the items of the fault-free compilation. Non-trivial: the faulted input compiled to Ok and was accounted.".into()
     }
     fn selftest(&self) -> Result<u64, String> {
         for layout in ["one", "two"] {
             for order in ["fwd", "rev"] {
-                let c = Case { faults: vec![], layout: layout.into(), order: order.into(), ts: false, names: String::new() };
-                let o = compile_rasn(&sources(&c), &Cfg::default());
-                if o.ok_clean().is_none() {
-                    return Err(format!("fault-free base ({layout},{order}) does not compile cleanly: {}", o.brief()));
+                for extras in [false, true] {
+                    let c = Case { faults: vec![], layout: layout.into(), order: order.into(), ts: false, names: String::new(), extras };
+                    let o = compile_rasn(&sources(&c), &Cfg::default());
+                    if o.ok_clean().is_none() {
+                        return Err(format!("fault-free base ({layout},{order},extras={extras}) does not compile cleanly: {}", o.brief()));
+                    }
                 }
             }
         }
-        Ok(4)
+        Ok(8)
     }
     fn enumerate(&self, tier: Tier, _seed: u64) -> Vec<Case> {
         let mut out = vec![];
         let kinds_for = |i: usize| -> Vec<&'static str> { if DEFS[i].is_value { VALUE_FAULTS.to_vec() } else { TYPE_FAULTS.to_vec() } };
-        for names in ["", "upper"] {
+        for (names, extras) in [("", false), ("upper", false), ("", true)] {
         for layout in ["one", "two"] {
             for order in ["fwd", "rev"] {
                 for ts in [false, true] {
-                    out.push(Case { faults: vec![], layout: layout.into(), order: order.into(), ts, names: names.into() });
+                    out.push(Case { faults: vec![], layout: layout.into(), order: order.into(), ts, names: names.into(), extras });
                     for i in 0..DEFS.len() {
                         for k in kinds_for(i) {
-                            out.push(Case { faults: vec![(i, k.into())], layout: layout.into(), order: order.into(), ts, names: names.into() });
+                            out.push(Case { faults: vec![(i, k.into())], layout: layout.into(), order: order.into(), ts, names: names.into(), extras });
                         }
                     }
                     if tier.thorough() && !ts && names.is_empty() {
@@ -234,7 +244,7 @@ impl Prop for C10 {
                             for j in (i + 1)..DEFS.len() {
                                 for ki in kinds_for(i) {
                                     for kj in kinds_for(j) {
-                                        out.push(Case { faults: vec![(i, ki.into()), (j, kj.into())], layout: layout.into(), order: order.into(), ts, names: names.into() });
+                                        out.push(Case { faults: vec![(i, ki.into()), (j, kj.into())], layout: layout.into(), order: order.into(), ts, names: names.into(), extras });
                                     }
                                 }
                             }
@@ -248,12 +258,12 @@ impl Prop for C10 {
         let all_kinds: Vec<(usize, &str)> = TYPE_FAULTS.iter().map(|k| (0usize, *k)).chain(VALUE_FAULTS.iter().map(|k| (6usize, *k))).collect();
         for ts in [false, true] {
             for a in &all_kinds {
-                out.push(Case { faults: vec![(a.0, a.1.into())], layout: "bad-module".into(), order: "fwd".into(), ts, names: String::new() });
+                out.push(Case { faults: vec![(a.0, a.1.into())], layout: "bad-module".into(), order: "fwd".into(), ts, names: String::new(), extras: false });
                 for b in &all_kinds {
-                    out.push(Case { faults: vec![(a.0, a.1.into()), (b.0, b.1.into())], layout: "bad-module".into(), order: "fwd".into(), ts, names: String::new() });
+                    out.push(Case { faults: vec![(a.0, a.1.into()), (b.0, b.1.into())], layout: "bad-module".into(), order: "fwd".into(), ts, names: String::new(), extras: false });
                     if tier.thorough() {
                         for c3 in &all_kinds {
-                            out.push(Case { faults: vec![(a.0, a.1.into()), (b.0, b.1.into()), (c3.0, c3.1.into())], layout: "bad-module".into(), order: "rev".into(), ts, names: String::new() });
+                            out.push(Case { faults: vec![(a.0, a.1.into()), (b.0, b.1.into()), (c3.0, c3.1.into())], layout: "bad-module".into(), order: "rev".into(), ts, names: String::new(), extras: false });
                         }
                     }
                 }
